@@ -142,8 +142,52 @@ struct Handle<'a> {
     uses: u32,
 }
 
+/// State that resurfaces only after a specific number of intervening calls:
+/// for sibling expressions (same shape, different literals / documents) search
+/// E1, then `gap` unrelated cheap searches, then E2, for every gap in a range.
+fn gap_sweep(rep: &mut Report, args: &Args) {
+    let siblings: [(&str, &str); 8] = [
+        ("sum(`[1, 2]`)", "sum(`[5, 5]`)"),
+        ("abs(`-1`)", "abs(`-7`)"),
+        ("abs(`-1`)", "abs(`\"x\"`)"),
+        ("max(`[1, 9]`)", "max(`[2, 3]`)"),
+        ("length('ab')", "length('abcd')"),
+        ("a.b", "a.c"),
+        ("xs[?@ > `1`]", "xs[?@ > `2`]"),
+        ("sort_by(recs, &k)[-1].id", "sort_by(recs, &k)[0].id"),
+    ];
+    let doc = json!({"a": {"b": 1, "c": 2}, "xs": [1, 2, 3], "recs": [{"id": "ann", "k": 3}, {"id": "bob", "k": 7}, {"id": "cid", "k": 7}]});
+    let input = rcvar_of(&doc);
+    let filler = jmespath::compile("@").unwrap();
+    let max_gap: u64 = args.kv.get("max-gap").and_then(|v| v.parse().ok()).unwrap_or(600);
+    let mut gap = args.shard;
+    while gap <= max_gap {
+        for (e1, e2) in siblings.iter() {
+            // single-shot truth of E2 first (fresh compile, nothing before it in this pair's window)
+            let want = fingerprint(&jmespath::compile(e2).and_then(|x| x.search(&input)));
+            let _ = jmespath::compile(e1).and_then(|x| x.search(&input));
+            for _ in 0..gap {
+                let _ = filler.search(&input);
+            }
+            rep.evaluations += 1;
+            let got = fingerprint(&jmespath::compile(e2).and_then(|x| x.search(&input)));
+            if got == want {
+                rep.count("gap_sweep_ok");
+            } else {
+                rep.violation(
+                    "C13/result-depends-on-history/after-a-gap",
+                    json!({"first": e1, "gap_of_unrelated_searches": gap, "then": e2, "single_shot": want, "observed": got}),
+                );
+            }
+        }
+        gap += args.shards;
+    }
+    rep.extra.insert("gap_sweep_max_gap".into(), json!(max_gap));
+}
+
 pub fn run(args: &Args) {
     let mut rep = Report::new("C13");
+    gap_sweep(&mut rep, args);
     let rt = make_runtime();
     let histories = args.n;
     let ops_per_history: usize = args.kv.get("ops").and_then(|v| v.parse().ok()).unwrap_or(2000);
